@@ -168,6 +168,10 @@ var registry = []Harness{
 	{Prop: "C16", Pkg: "proxy", Func: "VerifC16Preserve", Link: []string{"alphabet", "audit", "balance", "container", "neofs", "neofsid", "netmap", "nns", "processing", "proxy", "reputation"},
 		Quick: [][]int{{0}, {1}, {2}, {3}},
 		Bound: "data preservation on the CURRENT storage layout: Balance (two accounts, a lock, supply), Netmap (epoch, maps, candidates, configuration, ticking), Container (blob, owner index, eACL), NNS (name, owner, record) are built through the API, then upgraded from a release reporting a symbolic supported version; the read API must answer as before. Old storage layouts are NOT generated"},
+	{Prop: "C16", Pkg: "netmap", Func: "VerifC16MigrateNetmap", Link: []string{"netmap", "probe1", "probe2"},
+		Quick:    [][]int{{0, 0}, {0, 1}, {0, 2}, {0, 3}, {0, 4}, {1, 0}, {1, 2}, {1, 4}, {2, 0}},
+		Thorough: [][]int{{0, 0}, {0, 1}, {0, 2}, {0, 3}, {0, 4}, {1, 0}, {1, 1}, {1, 2}, {1, 3}, {1, 4}, {2, 0}},
+		Bound:    "LEGACY Netmap storage preset raw (not producible by the current code): era param0 (0: v in [0.15.4,0.16.0) one-field snapshot nodes and {{BLOB},state} candidates; 1: [0.16,0.17); 2: [0.17,0.19)), notary flag param1 (absent / false / true without ballots / true with a stale ballot / true with a pending ballot); symbolic version inside the era, epoch 1..1000, current snapshot id, two candidates with symbolic states 1..3, 3-byte-symbolic node blobs, one config value; the working tree's _deploy(data||v, true) runs on it; replay: a stand-in contract of the same manifest name receives the raw items and is updated to the real NEF"},
 }
 
 func c03Params(sizes []int) [][]int {
